@@ -156,9 +156,23 @@ def run_impl(prop, case):
         def describe(self):
             return f"{self.node_name}:{self.colour}"
 
+    class Eq(Node):
+        """a user subclass with value semantics: nodes compare (and hash) by name, so distinct nodes of a
+        tree can be equal; the library has to work on identity"""
+
+        def __eq__(self, other):
+            return isinstance(other, Node) and self.node_name == other.node_name
+
+        def __ne__(self, other):
+            return not self.__eq__(other)
+
+        def __hash__(self):
+            return hash(self.node_name)
+
     counter = [0]
     ptype = case.get("ptype", "float")
     style = case.get("call", "kw")
+    names = list(case.get("names") or [])
 
     if case["cls"] == "BinaryNode":
         # known finding K5: "btree" = [left, right] slots (None = empty), a leaf is [None, None]
@@ -187,10 +201,17 @@ def run_impl(prop, case):
 
     def fresh(parent=None):
         counter[0] += 1
+        extra = {}
+        if case.get("junk") == "ctor":
+            # user attributes given to the constructor whose names collide with what the layout uses / with
+            # built-in names
+            extra = {"x": "junk", "y": None, "mod": "0", "shift": -1.0e9, "depth": 99, "n": 1, "names": "zz",
+                     "name_en": "q", "path": "p"}
         if case["cls"] == "BaseNode":
-            nd = BaseNode(parent=parent)
+            nd = BaseNode(parent=parent, **extra)
         else:
-            nd = (Sub if case["cls"] == "Sub" else Node)("n%d" % counter[0], parent=parent)
+            nm = names[counter[0] - 1] if counter[0] <= len(names) else "n%d" % counter[0]
+            nd = {"Sub": Sub, "Eq": Eq}.get(case["cls"], Node)(nm, parent=parent, **extra)
         nd.set_attrs({"tag": counter[0]})
         return nd
 
@@ -201,7 +222,7 @@ def run_impl(prop, case):
         return nd
 
     root = build(case["tree"], None)
-    if case.get("junk"):
+    if case.get("junk") and case.get("junk") != "ctor":
         junk = ["junk", None, _Junk(), -1.0e9, [1, 2], "0"]
         k = 0
         for nd in [root] + list(root.descendants):
@@ -470,6 +491,16 @@ def corpus(prop):
                     "steps": [{"edits": [["reroot", [0, 1], 1, "parent"]], "par": u}], "stratum": "corpus"}),
         ("delete-subtree", {"cls": "Node", "tree": [[[[], []]], [[], []], []], "par": u,
                             "steps": [{"edits": [["del", [], 0]], "par": u}], "stratum": "corpus"}),
+        # a subclass with value equality (by name) and a descendant named like the root, on a tree that needs the
+        # final x adjustment; repeated names along a path and across branches
+        ("eq-root-name-below", {"cls": "Eq", "tree": [[], [[], [], [], [], []]], "par": u,
+                                "names": ["a", "b", "c", "a", "d", "e", "f", "g"], "stratum": "corpus"}),
+        ("eq-names-repeated", {"cls": "Eq", "tree": [[[], [[], [], [], []]], [[], [[]]]], "par": v,
+                               "names": ["a", "b", "a", "b", "a", "c", "d", "e", "c", "a", "b", "zz"],
+                               "steps": [{"edits": [["rev", [0, 1]], ["add", [1], 0]], "par": u, "read": True}],
+                               "stratum": "corpus"}),
+        ("ctor-attributes", {"cls": "Sub", "tree": [[], [[], [], [], []], [[]]], "par": u, "junk": "ctor",
+                             "names": ["x", "y", "shift", "mod", "depth", "x", "y", "n", "x"], "stratum": "corpus"}),
         # known finding K5: every BinaryNode tree (children holds None slots) makes the call raise AttributeError
         ("K5-binary-single", {"cls": "BinaryNode", "btree": [None, None], "tree": [], "par": u, "stratum": "corpus"}),
         ("K5-binary-left-only", {"cls": "BinaryNode", "btree": [[None, None], None], "tree": [[]], "par": u,
@@ -744,8 +775,28 @@ def generate(prop, rng, tier):
         elif r < 0.25:
             case["ptype"] = "fraction"
         case["call"] = rng.choice(["kw", "kw", "kw", "pos", "omit"])
-        if rng.random() < 0.15:
+        r = rng.random()
+        if r < 0.12:
             case["junk"] = True
+        elif r < 0.2:
+            case["junk"] = "ctor"
+        allowed = None
+        if rng.random() < 0.16:
+            # repeated names (along a path, across branches, the root's name below), half of them on a subclass
+            # with value equality; preferably on shapes that need the negative-x adjustment
+            if rng.random() < 0.5:
+                case["tree"] = t = gen_negwide(rng)
+                while tsize(t) > 22:
+                    case["tree"] = t = gen_negwide(rng)
+            case["names"] = gen_names(rng, t)
+            if rng.random() < 0.6:
+                case["cls"] = "Eq"
+                allowed = ["add", "append", "rev"]
+            else:
+                if case["cls"] == "BaseNode":
+                    case["cls"] = "Node"
+                allowed = ["add", "append", "rev", "del", "delsub", "cut"]
+            label = case["stratum"] = f"names-{case['cls']}:{shape}/{pk}"
         if rng.random() < 0.3:
             # the same tree object is laid out again (once or twice), with the same or other parameters, and
             # in half of the cases after a structural change (leaf inserted / appended, children reversed,
@@ -757,7 +808,7 @@ def generate(prop, rng, tier):
                 eds = []
                 if rng.random() < 0.6:
                     for _ in range(rng.choice([1, 1, 2])):
-                        ed, cur = gen_edit(rng, cur)
+                        ed, cur = gen_edit(rng, cur, allowed)
                         if ed is not None:
                             eds.append(ed)
                     edited = edited or bool(eds)
@@ -770,13 +821,13 @@ def generate(prop, rng, tier):
                 for st in steps:
                     st["par"] = [float(round(v)) if round(v) >= 1 or i >= 3 else 1.0 for i, v in enumerate(st["par"])]
             case["steps"] = steps
-            case["stratum"] = label = ("relayout-edited:" if edited else "rerun:") + f"{shape}/{pk}"
+            case["stratum"] = label = ("relayout-edited:" if edited else "rerun:") + label
         elif rng.random() < 0.1:
             # the call is made on a node that is not the root: a first child (at any depth)
             cands = [q for q, _ in _paths(t) if q and q[-1] == 0]
             if cands:
                 case["start"] = rng.choice(cands)
-                case["stratum"] = label = f"subtree-start:{shape}/{pk}"
+                case["stratum"] = label = "subtree-start:" + label
         yield label, case
 
 
@@ -803,9 +854,47 @@ def _delnode(t, path):
     return _replace(t, path[:-1], par[:path[-1]] + par[path[-1] + 1:])
 
 
-def gen_edit(rng, t):
+def _depths(t, d=0, out=None):
+    out = [] if out is None else out
+    out.append(d)
+    for k in t:
+        _depths(k, d + 1, out)
+    return out
+
+
+def gen_names(rng, t):
+    """pre-order names with repeats along a path and across branches, the root's name re-used below; sibling
+    names distinct (Node rejects equal sibling names); at least one node of the deepest level is not named
+    like the root (see partial_clauses: max_depth of a value-equality subclass)"""
+    pool = ["a", "b", "c", "d", "e", "f", "g", "h", "i", "j", "k", "l", "m", "o"]
+    out = []
+
+    def walk(sub, anc):
+        me = len(out)
+        used = set()
+        for k in sub:
+            r = rng.random()
+            cand = anc[0] if r < 0.3 else rng.choice(anc) if r < 0.5 else rng.choice(pool)
+            while cand in used:
+                cand = rng.choice(pool)
+            used.add(cand)
+            out.append(cand)
+            walk(k, anc + [cand])
+        return me
+
+    out.append("a")
+    walk(t, ["a"])
+    dep = _depths(t)
+    deepest = [i for i, d in enumerate(dep) if d == max(dep)]
+    if max(dep) > 0 and all(out[i] == out[0] for i in deepest):
+        out[deepest[0]] = "zz"
+    return out
+
+
+def gen_edit(rng, t, allowed=None):
     """(edit, tree after the edit); (None, t) when the chosen kind is not applicable"""
-    kind = rng.choice(["add", "append", "rev", "del", "delsub", "move", "move", "move", "move", "cut", "reroot"])
+    kind = rng.choice([k for k in ["add", "append", "rev", "del", "delsub", "move", "move", "move", "move", "cut",
+                                   "reroot"] if allowed is None or k in allowed])
     nodes = list(_paths(t))
     if kind in ("add", "append"):
         inner = [(p, k) for p, k in nodes if k]
@@ -924,7 +1013,9 @@ def rule(prop):
             "off and laid out on its own, the tree re-rooted), 40 % with depth / max_depth / x / y / is_leaf read on every "
             "node before and between the changes; ~10 % of the single-call cases make the call on a first child instead of the root; parameters are "
             "passed as floats / ints (15 %) / Fractions (10 %), by keyword / positionally / with defaults omitted; 15 % of the "
-            "cases pre-set x, y, mod, shift with junk values; classes Node / BaseNode / a user subclass; strata verywide "
+            "cases pre-set x, y, mod, shift with junk values and 8 % pass x / y / mod / shift / depth / n / names / name_en / path "
+            "as constructor attributes; classes Node / BaseNode / a user subclass / a subclass with value equality by name; "
+            "16 % of the cases carry repeated names (along a path, across branches, the root's name below); strata verywide "
             "(fan-out 10-12) and cancel (x_offset / y_offset, also negative, that cancel preliminary coordinates, mods or "
             "levels exactly); the harness also fails a case when the call returns a value or changes structure, names or a "
             "user attribute; non-trivial = >= 4 nodes, some fan-out >= 2 and depth >= 3; distinct by canonical JSON hash")
@@ -959,7 +1050,11 @@ def partial_clauses(prop):
             "children-with-children reaches b's deepest level; C19_cousins_partial2 additionally allows nodes with any "
             "number of non-leaf children all of whose grandchildren are leaves; C19_cousins_failure_shape is the "
             "contrapositive (every cousin failure happens on a tree outside that guard)",
-            "NOT EXERCISED / NOT COMPARED (accepted): (1) BinaryNode trees: reingold_tilford raises AttributeError on every "
+            "NOT EXERCISED / NOT COMPARED (accepted): (0) subclasses whose instances can be falsy (__len__ = number of "
+            "children, __bool__): the unchanged library collapses the layout (preorder_iter and `if node.left_sibling` "
+            "skip falsy nodes) - reported, not generated; a value-equality subclass whose ONLY deepest nodes are named "
+            "like the root gets every y one level too low (max_depth goes through descendants, which drops nodes == "
+            "root) - reported, generated names avoid it; (1) BinaryNode trees: reingold_tilford raises AttributeError on every "
             "BinaryNode tree, even a single node (children contain None): known finding K5-C19, three corpus witnesses "
             "(modelled: raises), not generated; (2) a start node that "
             "has a left sibling (reads x / subtrees of nodes outside the subtree, TypeError on a fresh tree, writes shift on "
